@@ -699,6 +699,81 @@ Definition dec_value (v : value) : value :=
   end.
 Definition dec_obs (o : obs) : obs := match o with OV v => OV (dec_value v) | _ => o end.
 
+(* ================= 5. npstructures' ragged views (the model of RaggedArray indexing) =================
+   A ragged array is a flat buffer plus, per row, a start offset and a length, and one column step for the whole
+   view (RaggedShape / RaggedView2).  Row indexing (`RaggedShape.view`, `RaggedView2.view_rows`) indexes the
+   (start, length) table; a column slice (`RaggedView2._pos_col_slice`, `.col_slice`, `._calculate_lengths`) only
+   rewrites starts, lengths and the step; nothing is copied until ravel().  The views are therefore non-contiguous,
+   overlapping, reordered and strided in general — the "history" a value carries.  Proofs/C07_view.v shows that the
+   rows such a view denotes are the list-of-rows meaning used by g_step. *)
+Record rview := { rv_data : list Z; rv_starts : list Z; rv_lens : list Z; rv_step : Z }.
+Definition rv_row (data : list Z) (step s l : Z) : list Z := map (fun k => nthZ data (s + k * step)) (arange l).
+Definition rv_rows (v : rview) : list (list Z) := map2 (rv_row (rv_data v) (rv_step v)) (rv_starts v) (rv_lens v).
+(* a freshly built (contiguous) ragged array *)
+Definition rv_of_rows (rows : list (list Z)) : rview :=
+  {| rv_data := concat rows; rv_starts := starts_of (map len rows); rv_lens := map len rows; rv_step := 1 |}.
+Definition rv_wf (v : rview) : Prop := length (rv_starts v) = length (rv_lens v) /\ Forall (fun l => 0 <= l) (rv_lens v).
+
+(* rows: integer array / slice / mask index into the (start, length) table *)
+Definition v_rowsel (v : rview) (s : sel) : option rview :=
+  match sel_pos (len (rv_starts v)) s with
+  | Some pos => Some {| rv_data := rv_data v; rv_starts := gather (rv_starts v) pos;
+                        rv_lens := gather (rv_lens v) pos; rv_step := rv_step v |}
+  | None => None
+  end.
+(* RaggedView2._pos_col_slice: step st > 0 *)
+Definition pcs_start (a : option Z) (L : Z) : Z :=
+  match a with None => 0 | Some x => if 0 <=? x then Z.min x L else Z.max (L + x) 0 end.
+Definition pcs_stop (b : option Z) (L : Z) : Z :=
+  match b with None => L | Some x => if x <? 0 then Z.max (L + x) 0 else Z.min L x end.
+Definition v_colslice_pos (v : rview) (a b : option Z) (st : Z) : rview :=
+  {| rv_data := rv_data v;
+     rv_starts := map2 (fun s L => s + rv_step v * pcs_start a L) (rv_starts v) (rv_lens v);
+     rv_lens := map (fun L => Z.max 0 ((pcs_stop b L - pcs_start a L + (st - 1)) / st)) (rv_lens v);
+     rv_step := rv_step v * st |}.
+(* RaggedView2.col_slice with step st < 0, lengths from _calculate_lengths (transcribed as it is) *)
+Definition ncs_len (a b : option Z) (st L : Z) : Z :=
+  let start := match a with None => L - 1 | Some x => if x <? 0 then L + x else x end in
+  let stop := match b with None => -1 | Some x => if x <? 0 then L + x else x end in
+  let mask := negb (Z.sgn (stop - start) =? Z.sgn st) || ((start <? 0) && (st <? 0)) || ((L <=? start) && (0 <? st))
+              || ((stop <=? 0) && (0 <? st)) || ((L <=? stop) && (st <? 0)) in
+  let start' := Z.max (Z.min start (L - 1)) 0 in
+  let stop' := Z.max (Z.min stop (L - 1)) (-1) in
+  if mask then 0 else (Z.abs (stop' - start') - 1) / Z.abs st + 1.
+Definition ncs_start (a : option Z) (L : Z) : Z :=
+  let x := match a with None => L - 1 | Some x => if x <? 0 then L + x else x end in
+  Z.max (Z.min (L - 1) x) 0.
+Definition v_colslice_neg (v : rview) (a b : option Z) (st : Z) : rview :=
+  {| rv_data := rv_data v;
+     rv_starts := map2 (fun s L => s + rv_step v * ncs_start a L) (rv_starts v) (rv_lens v);
+     rv_lens := map (ncs_len a b st) (rv_lens v);
+     rv_step := st * rv_step v |}.
+Definition v_colslice (v : rview) (a b s : option Z) : option rview :=
+  let st := match s with Some k => k | None => 1 end in
+  if st =? 0 then None else if 0 <? st then Some (v_colslice_pos v a b st) else Some (v_colslice_neg v a b st).
+(* ravel(): RaggedView2.get_flat_indices -> build_indices: np.full(size+1, step); at the first element of every
+   non-empty row but the first the entry is the jump from the last element of the previous non-empty row; entry 0 is
+   the first start; cumsum; the last entry is dropped *)
+Fixpoint vb_builder (step : Z) (prev_last : option Z) (starts lens : list Z) : list Z :=
+  match starts, lens with
+  | s :: starts', l :: lens' =>
+      if l <=? 0 then vb_builder step prev_last starts' lens'
+      else (match prev_last with None => s | Some p => s - p end)
+           :: repeat step (Z.to_nat (l - 1)) ++ vb_builder step (Some (s + (l - 1) * step)) starts' lens'
+  | _, _ => []
+  end.
+Definition v_flat_indices (v : rview) : list Z := cumsum (vb_builder (rv_step v) None (rv_starts v) (rv_lens v)).
+Definition v_ravel (v : rview) : list Z := map (nthZ (rv_data v)) (v_flat_indices v).
+(* a view operation of a program step; None = the step is not a pure view operation *)
+Definition v_step (v : rview) (o : op) : option rview :=
+  match o with
+  | RowSel s => v_rowsel v s
+  | ColSlice a b s => v_colslice v a b s
+  | RC (SInt _) _ _ _ => None
+  | RC rs a b s => match v_rowsel v rs with Some v' => v_colslice v' a b s | None => None end
+  | _ => None
+  end.
+
 (* ---- source shapes the bridge compares literally (Gen/C07.v carries the text found in /repo) ---- *)
 Import String.
 (* split: the row lengths are differences of consecutive separator positions after a leading 0  (diff (0 :: sep_idx)) *)
